@@ -403,6 +403,10 @@ def run_ports(case):
 
 
 def _runs_lit(rs):
+    # a correct port list has at most two runs; a (wrong) observation with thousands is cut and marked with a run the
+    # model can never produce, so that it still disagrees but cannot exhaust coqc's memory
+    if len(rs) > 3000:
+        rs = list(rs[:3000]) + [[-7, -7]]
     return common.listlit(_zz(r) for r in rs)
 
 
